@@ -159,6 +159,24 @@ def check_case(ctx, case):
                 singles += [int(v) for v in r]
             if [int(v) for v in o.value] != singles:
                 ctx.violation("array_lookup_not_matches_in_order", {"n_array": len(o.value), "n_single": len(singles)})
+            # the same points in other legitimate representations and orders: read-only arrays, Python lists, sorted by longitude /
+            # latitude (the quadtree lookup documents list / ndarray input only: tuples are not in its domain and not generated) (one point per match, so a sorted request must return the same multiset of tiles)
+            ro_x, ro_y = numpy.array(xs), numpy.array(ys)
+            ro_x.setflags(write=False)
+            ro_y.setflags(write=False)
+            for rep, ax, ay in (("lists", list(xs), list(ys)), ("readonly_arrays", ro_x, ro_y)):
+                orp = call(region.get_index_of, ax, ay)
+                if not orp.ok:
+                    ctx.unexpected(orp, "get_index_of_array:" + rep)
+                elif ctx.normalize("array_lookup:" + rep, lambda: [int(v) for v in numpy.atleast_1d(orp.value)]) != singles:
+                    ctx.violation("array_lookup_depends_on_representation:" + rep, {"n": len(xs)})
+            for rep, key in (("sorted_by_lon", lambda i: (xs[i], ys[i])), ("sorted_by_lat_desc", lambda i: (-ys[i], xs[i]))):
+                order = sorted(range(len(xs)), key=key)
+                orp = call(region.get_index_of, numpy.array([xs[i] for i in order]), numpy.array([ys[i] for i in order]))
+                if not orp.ok:
+                    ctx.unexpected(orp, "get_index_of_array:" + rep)
+                elif sorted(ctx.normalize("array_lookup:" + rep, lambda: [int(v) for v in numpy.atleast_1d(orp.value)]) or []) != sorted(singles):
+                    ctx.violation("array_lookup_depends_on_point_order:" + rep, {"n": len(xs)})
     # ---- areas
     o = call(region.get_cell_area)
     if not o.ok:
